@@ -27,6 +27,7 @@ type Script struct {
 	Delay        time.Duration // wait before answering (request is "waiting for backend headers")
 	PartDelay    time.Duration // wait after each flushed part (response is "mid-body")
 	Arrived      chan struct{} // signalled (non-blocking) when the request has arrived
+	Trailer      []HeaderLine  // sent as HTTP trailers after the body (forces chunked framing)
 }
 
 // Seen is what the backend received.
@@ -226,6 +227,14 @@ func (b *Backend) serve(w http.ResponseWriter, r *http.Request) {
 	if sc.DeclareLen {
 		w.Header().Set("Content-Length", fmt.Sprint(total))
 	}
+	for _, t := range sc.Trailer {
+		w.Header().Add("Trailer", t.Name)
+	}
+	defer func() {
+		for _, t := range sc.Trailer {
+			w.Header().Set(t.Name, t.Value)
+		}
+	}()
 	if sc.Status != 0 {
 		w.WriteHeader(sc.Status)
 	}
